@@ -84,7 +84,8 @@ partial def opOfJson (op : Json) : Op :=
       { name := splitDot (jstr (jfield op "name")), nameValid := jbool (jfield op "nameValid"),
         module := if jisNull modJ then none else some (splitDot (jstr modJ)),
         moduleValid := jbool (jfield op "moduleValid"),
-        sig := sigOfJson (jfield op "sig"), allow := jstrs (jfield op "allow"),
+        sig := sigOfJson (jfield op "sig"),
+        innerSig := (match jfield op "innerSig" with | .null => none | j => some (sigOfJson j)), allow := jstrs (jfield op "allow"),
         deny := jstrs (jfield op "deny"), listTypesOk := jbool (jfield op "listTypesOk"),
         objId := jnat (jfield op "obj"), isMethod := jbool (jfield op "method"),
         isClass := jbool (jfield op "cls"),
